@@ -3,6 +3,7 @@
 //@dropderive Debug,Serialize,Deserialize,Clone,Copy
 //@subst std::path::PathBuf => PathBuf
 //@subst std::path::Path => Path
+//@subst std::io::ErrorKind => IoErrorKind
 //@subst notify::Error => NotifyError
 //@subst notify::Result => NotifyResult
 //@subst notify::Event => Event
@@ -144,13 +145,32 @@ pub tracked struct Trace {
     pub ghost sends: nat,
     /// paths handed to `watcher.watch`, in order
     pub ghost watched: Seq<PathBuf>,
-    /// a `watch` call failed with an error other than PathNotFound
+    /// a `watch` call failed with an error that does not mean "the path does not exist"
     pub ghost hard_error: bool,
     /// watchers created
     pub ghost created: nat,
 }
-pub enum ErrorKind { Generic, Io, PathNotFound, WatchNotFound, InvalidConfig, MaxFilesWatch }
+/// std::io::ErrorKind (the three that matter here)
+pub enum IoErrorKind { NotFound, PermissionDenied, Other }
+impl PartialEq for IoErrorKind {
+    #[verifier::external_body]
+    fn eq(&self, o: &IoErrorKind) -> (r: bool) ensures r == (*self == *o) { unimplemented!() }
+}
+#[verifier::external_body]
+pub struct StdIoError { _p: () }
+impl StdIoError {
+    pub uninterp spec fn spec_kind(&self) -> IoErrorKind;
+    #[verifier::external_body]
+    pub fn kind(&self) -> (r: IoErrorKind) ensures r == self.spec_kind() { unimplemented!() }
+}
+pub enum ErrorKind { Generic, Io(StdIoError), PathNotFound, WatchNotFound, InvalidConfig, MaxFilesWatch }
 pub struct NotifyError { pub kind: ErrorKind, pub paths: Vec<PathBuf> }
+/// A-notify, corrected after a reproduction on the real binary: a path that does not exist is reported as
+/// `PathNotFound` by the fsevent/windows back ends and as the underlying `Io(NotFound)` by the inotify back end
+/// (notify 6.1.1, src/inotify.rs add_watch: `metadata(&path).map_err(Error::io)?`)
+pub open spec fn means_missing(e: NotifyError) -> bool {
+    e.kind is PathNotFound || (e.kind matches ErrorKind::Io(io) && io.spec_kind() is NotFound)
+}
 pub type NotifyResult<T> = std::result::Result<T, NotifyError>;
 /// notify::EventKind: the code of the pinned commit does not look at it (every kind of event on a relevant path
 /// invalidates); the accessors exist so that code which starts to filter on it is still extracted and decided
@@ -194,11 +214,11 @@ impl Error {
     pub fn new(e: NotifyError) -> Error { unimplemented!() }
 }
 impl RecommendedWatcher {
-    /// `watcher.watch(path, mode)` (A-notify): PathNotFound for a path that does not exist
+    /// `watcher.watch(path, mode)` (A-notify): an error for which `means_missing` holds for a path that does not exist
     #[verifier::external_body]
     pub fn watch(&mut self, p: &Path, mode: RecursiveMode, Tracked(tr): Tracked<&mut Trace>) -> (r: NotifyResult<()>)
         ensures *final(tr) == (Trace { watched: old(tr).watched.push(p.buf()),
-            hard_error: old(tr).hard_error || (r matches Err(e) && !(e.kind is PathNotFound)), ..*old(tr) }),
+            hard_error: old(tr).hard_error || (r matches Err(e) && !means_missing(e)), ..*old(tr) }),
     { unimplemented!() }
 }
 impl Sender<TargetInvalidatedMessage> {
@@ -311,6 +331,11 @@ pub fn group_paths<'a>(m: &mut HashMap<FileExtensions, HashSet<&'a PathBuf>>, re
 pub fn watch_groups<'a>(m: HashMap<FileExtensions, HashSet<&'a PathBuf>>, target_id: &TargetId, sender: &Sender<TargetInvalidatedMessage>, Tracked(tr): Tracked<&mut Trace>) -> (r: Result<Vec<RecommendedWatcher>>)
     ensures r is Err ==> final(tr).hard_error || final(tr).created == old(tr).created || true,
 { unimplemented!() }
+
+//@fn src/engine/watcher.rs is_path_not_found ret=r
+//@contract
+    ensures /*[C06.missing-path]*/ r == means_missing(*error),
+//@end
 
 //@fn src/engine/watcher.rs TargetWatcher::new#closure1 as=watch_group params=`extensions: FileExtensions, paths: HashSet<&PathBuf>, target_id: &TargetId, target_invalidated_sender: &Sender<TargetInvalidatedMessage>` rty=`Result<RecommendedWatcher>` ret=r
 //@lsubst Self::build_immediate_watcher => build_immediate_watcher
